@@ -1,12 +1,15 @@
 (* Properties/C02.v — Well-formed messages decode to exactly what they encode.
    Proved here: the header fields are the six big-endian words; all flag / opcode / rcode
    accessors are the RFC 1035 bit fields (finite sweep over all 65536 words, lifted); the OPT
-   fields are the RFC 6891 split of CLASS/TTL for every 32-bit TTL.  The record-level round trip
-   over all legal wire layouts is decided by the roundtrip stream (AST -> several compression
+   fields are the RFC 6891 split of CLASS/TTL for every 32-bit TTL; a record in the uncompressed
+   wire layout (owner name, TYPE, CLASS, TTL, RDLENGTH, A address) decodes to exactly its fields
+   wherever it lies.  The record-level round trip over all 17 types and all legal (compressed)
+   layouts is decided by the roundtrip stream (AST -> several compression
    engines -> reader and iterator -> field-by-field comparison); see DESIGN.md §5 C02. *)
 From Coq Require Import ZArith Lia.
-From RsdnsModel Require Import Base GenConst GenCursor GenHeader GenSpec Cursor Header.
-From RsdnsModel.Proofs Require Import CursorSafe ListN Bits.
+From RsdnsModel Require Import Base GenConst GenCursor GenHeader GenSpec Cursor Names Labels Header Tracker RData Reader Writer.
+From RsdnsModel.Spec Require Import WireName.
+From RsdnsModel.Proofs Require Import CursorSafe ListN Bits WriterLayout RecordRT.
 Open Scope N_scope.
 
 Definition be16 (msg : list byte) (off : N) : N := be_val (subN msg off 2) 0.
@@ -48,3 +51,28 @@ Proof. exact opt_fields_rfc. Qed.
 
 Theorem C02_opt_do : forall f, opt_dnssec_ok f = N.testbit f 15.
 Proof. exact opt_do_rfc. Qed.
+
+(* encode -> decode for a whole record in the uncompressed layout, anywhere in any message:
+   [wire_encode ls] is the owner name (length-prefixed labels + root octet), [fixed_wire] the
+   big-endian TYPE CLASS TTL RDLENGTH, then the 4 address octets.  Decoding the owner (either name
+   type), the fixed part and the typed data returns exactly ls (as text), class, TTL, RDLENGTH 4 and
+   the address, and ends right behind the record. *)
+Theorem C02_a_record_roundtrip_plain : forall msg pre ls cl ttl addr post nk c p s,
+  msg = pre ++ wire_encode ls ++ fixed_wire T_A cl ttl 4 ++ be_bytes 4 addr ++ post ->
+  cwf msg c -> orig c = None -> pos c = lenN pre -> lim c = lenN msg ->
+  Forall (fun l => label_ok l = true) ls -> wire_len ls <= 255 ->
+  cl < 65536 -> ttl < 4294967296 -> addr < 4294967296 ->
+  exists c1 c2 mk m,
+    read_name msg nk c = Ok (join_labels ls, c1) /\
+    m_raw_marker msg p s c1 = (c2, Ok mk) /\
+    m_rtype mk = T_A /\ m_rclass mk = cl /\ m_ttl mk = ttl /\ m_rdlen mk = 4 /\ m_section mk = s /\
+    read_rdata msg T_A (m_rdlen mk) = Some m /\ snd (m c2) = Ok (RD_A addr) /\
+    pos (fst (m c2)) = lenN pre + wire_len ls + 10 + 4.
+Proof. exact a_record_plain. Qed.
+
+(* the fixed part of any record header decodes to the four big-endian fields that were written *)
+Theorem C02_fixed_part_roundtrip : forall msg pre post c p s ty cl ttl rdlen,
+  msg = pre ++ fixed_wire ty cl ttl rdlen ++ post -> cwf msg c -> pos c = lenN pre -> lenN pre + 10 <= lim c ->
+  ty < 65536 -> cl < 65536 -> ttl < 4294967296 -> rdlen < 65536 ->
+  m_raw_marker msg p s c = (c_set_pos c (lenN pre + 10), Ok (mkMarker p (lenN pre) ty cl ttl rdlen s)).
+Proof. exact raw_marker_plain. Qed.
